@@ -279,7 +279,8 @@ func (vt *Model) cup(pm [][]int) {
 	case 1:
 		vt.cursor.row = row(pm[0][0] - 1)
 		vt.cursor.col = 0
-	case 2:
+	default:
+		// parameters after the second are ignored
 		vt.cursor.row = row(pm[0][0] - 1)
 		vt.cursor.col = column(pm[1][0] - 1)
 	}
@@ -655,7 +656,8 @@ func (vt *Model) decstbm(pm [][]int) {
 	case 1:
 		top = row(pm[0][0] - 1)
 		bot = row(vt.height()) - 1
-	case 2:
+	default:
+		// parameters after the second are ignored
 		top = row(pm[0][0] - 1)
 		bot = row(pm[1][0] - 1)
 	}
